@@ -4,6 +4,7 @@ use crate::proto::Ctx;
 pub mod allops;
 pub mod boolops;
 pub mod c15x;
+pub mod loomx;
 
 macro_rules! registry {
     ($($id:literal => $m:ident),* $(,)?) => {
